@@ -3,7 +3,7 @@
     [advertised]  what the bytes on the wire say (a peer's reading of the transport parameter
                   list that u_connection.go/newUClientConnection hands to uTLS, after
                   wire.PopulateFromUQUIC; RFC 9000 18.2 defaults for absent parameters);
-    [enforced]    what the connection enforces: connection.go preSetup (flow controller
+    [enforced]    what the connection enforces from a Config: connection.go preSetup (flow controller
                   windows, streams map limits, frame parser switch), newFlowController,
                   connIDManager.Add (constant), handleDatagramFrame, applyTransportParams;
     [populate]    config.go validateConfig + populateConfig;
@@ -190,6 +190,28 @@ Definition enforced (c : config) : limits :=
       (c_idle c)                                 (* applyTransportParams: idleTimeout = config.MaxIdleTimeout (min peer) *)
       protoMaxPacketBufferSize.
 
+(** * The spec-driven client (u_connection.go newUClientConnection, repaired):
+      [s.config = configCoveringSpec(conf, uSpec)] before preSetup raises the populated Config
+      to the advertised values; connIDManager.SetConnectionIDLimit stores the advertised
+      active_connection_id_limit and Add compares with max(MaxActiveConnectionIDs, limit). *)
+Definition protoMaxStreamCount : Z := 2 ^ 60.        (* protocol.MaxStreamCount *)
+Definition maxDurationMs : Z := 9223372036854775807 / nsPerMs.   (* math.MaxInt64 / time.Millisecond *)
+
+Definition cover_config (a : limits) (c : config) : config :=
+  let isw := Z.max (Z.max (Z.max (c_isw c) (l_sd_bl a)) (l_sd_br a)) (l_sd_uni a) in
+  let icw := Z.max (c_icw c) (l_max_data a) in
+  mkC isw (Z.max (c_msw c) isw) icw (Z.max (c_mcw c) icw)
+      (Z.max (c_mis c) (Z.min (l_s_bidi a) protoMaxStreamCount))
+      (Z.max (c_mius c) (Z.min (l_s_uni a) protoMaxStreamCount))
+      (c_dg c || (0 <? l_dgram a))
+      (if l_idle a / nsPerMs <=? maxDurationMs then Z.max (c_idle c) (l_idle a) else c_idle c).
+
+Definition enforced_spec (a : limits) (c : config) : limits :=
+  let e := enforced (cover_config a c) in
+  mkL (l_max_data e) (l_sd_bl e) (l_sd_br e) (l_sd_uni e) (l_s_bidi e) (l_s_uni e)
+      (Z.max protoMaxActiveConnectionIDs (l_cid a))
+      (l_dgram e) (l_idle e) (l_udp e).
+
 (* what the plain client puts on the wire (newClientConnection / the else branch of
    newUClientConnection + TransportParams.Marshal) *)
 Definition plain_advertised (c : config) : limits :=
@@ -289,10 +311,13 @@ Definition client_step (e : env) (s : state) (x : ev) : state * option Z :=
     else (s, None)
   end.
 
-(* largest DATAGRAM frame that fits a packet the client said it accepts: short header
-   (1 byte), zero-length DCID, 1-byte packet number, 16-byte AEAD tag *)
+(* largest DATAGRAM frame that can reach the client's frame handling: it has to fit a packet
+   the client said it accepts (max_udp_payload_size) and the client's receive buffer
+   (protocol.MaxPacketBufferSize: a larger packet is truncated and dropped, which is loss, not
+   an error); short header (1 byte), zero-length DCID, 1-byte packet number, 16-byte AEAD tag *)
 Definition minPacketOverhead : Z := 18.
-Definition dgram_cap (a : limits) : Z := Z.min (l_dgram a) (l_udp a - minPacketOverhead).
+Definition dgram_cap (a : limits) : Z :=
+  Z.min (l_dgram a) (Z.min (l_udp a) protoMaxPacketBufferSize - minPacketOverhead).
 
 (* idle timeout the peer computes (RFC 9000 10.1): None = no timeout *)
 Definition peer_idle_view (adv_idle peer_idle : Z) : option Z :=
